@@ -175,18 +175,18 @@ def _c05_growing_architecture(seed):
 
 
 def bounded_layer_verdicts(tier, seed):
-    b = Bounded("C05.layer-verdict-vs-documented-semantics", "12-module tree with prefix-named siblings (r.a / r.ab) and 3 levels; import relations: all with <=1 import + 60/600 random (2-8 imports); per graph 3 (quick) / 6 "
+    b = Bounded("C05.layer-verdict-vs-documented-semantics", "12-module tree with prefix-named siblings (r.a / r.ab) and 3 levels; import relations: all with <=1 import + 60/4000 random (2-8 imports); per graph 3 (quick) / 6 "
                 "random partitions of unrelated modules into 2-4 layers (name lists, regex, mixed; some modules in no layer; layers the rule does not mention) x 12 access shapes x 1-2 object layers + the two "
                 "'any layer' aliases")
     rng = random.Random(seed)
-    rels = import_relations(LTREE, rng, n_random=(60 if tier == "quick" else 600), exhaustive_upto=1)
+    rels = import_relations(LTREE, rng, n_random=(60 if tier == "quick" else 4000), exhaustive_upto=1)
     rng.shuffle(rels)
     if tier == "quick":
         rels = rels[:110]
     size = max(1, len(rels) // 16)
     jobs = [(rels[i:i + size], rng.randrange(1 << 30), 3 if tier == "quick" else 6) for i in range(0, len(rels), size)]
     _merge(b, pmap(_c05_chunk, jobs))
-    for res in pmap(_c05_growing_architecture, [seed * 1013 + i for i in range(40 if tier == "quick" else 600)]):
+    for res in pmap(_c05_growing_architecture, [seed * 1013 + i for i in range(40 if tier == "quick" else 5000)]):
         b.case()
         for v in res:
             b.violation(v["case"], v["detail"], v["input"])
@@ -287,8 +287,8 @@ def _c17_case(seed):
 
 def bounded_labels(tier, seed):
     b = Bounded("C17.plot-labels-at-the-drawing-backend", "4 module trees (nested, prefix-named siblings, names with regex metacharacters), random subsets of modules / level_limit=1; alias maps over 0-4 existing "
-                "modules with alias strings containing dots and regex metacharacters; with and without spacing and extra drawing options; observed at the intercepted draw_networkx call; 2500/25000 cases")
-    for res in pmap(_c17_case, [seed * 100003 + i for i in range(2500 if tier == "quick" else 25000)]):
+                "modules with alias strings containing dots and regex metacharacters; with and without spacing and extra drawing options; observed at the intercepted draw_networkx call; 2500/150000 cases")
+    for res in pmap(_c17_case, [seed * 100003 + i for i in range(2500 if tier == "quick" else 150000)]):
         b.case()
         for v in res:
             b.violation(v["case"], v["detail"], v["input"])
@@ -336,8 +336,8 @@ def _c14l_case(seed):
 
 def bounded_layer_label_renaming(tier, seed):
     b = Bounded("C14.layer-attribution-and-labels-under-renaming", "12-module tree, 1-6 imports, random name-defined layers, one random layer-rule shape and one alias map; compared under one collision-free and two "
-                "adversarial injective component renamings; 600 (quick) / 6000 cases")
-    for res in pmap(_c14l_case, [seed * 100003 + i for i in range(600 if tier == "quick" else 6000)]):
+                "adversarial injective component renamings; 600 (quick) / 40000 cases")
+    for res in pmap(_c14l_case, [seed * 100003 + i for i in range(600 if tier == "quick" else 40000)]):
         b.case()
         for v in res:
             b.violation(v["case"], v["detail"], v["input"])
